@@ -354,3 +354,17 @@ def gen_xjoin(rng, big=False):
     s.main += ["R%d" % u for u in order]
     s.main += ["F%d" % u for u, _ in units]
     return s.text()
+
+
+def gen_f6(rng, big=False):
+    """finding F6: a second migration request issued while the first one is being handled (between the handler's read
+    of the target and its clearing of the request bit) is acknowledged with ABT_SUCCESS and never performed"""
+    s = Scn(rng, 2, [("fifo", "mpmc"), ("fifo", "mpmc")])
+    s.lines.append("# F6")
+    s.es(1, "basic", [0])
+    s.es(2, "basic", [1])
+    u = s.unit("U", "N", 99, [])
+    s.units[u][3] = ["b%d!" % u, "M%d:0" % u, "Y", "Y", "Y", "Y"]
+    h = s.unit("U", "N", 1, ["w", "M%d:1" % u, "o"])
+    s.main += ["C%d" % u, "C%d" % h, "F%d" % h, "D%d" % u, "p%d" % u, "F%d" % u]
+    return s.text()
